@@ -1023,11 +1023,16 @@ namespace BitSerializer::Convert::Utf
 			assert(mStartDataPtr <= mEndDataPtr);
 			if (mInputStream.eof())
 			{
-				// Handle uncompleted sequence at the end of file
-				if (result.ErrorCode == UtfEncodingErrorCode::UnexpectedEnd && Detail::HandleEncodingError(outStr, mEncodingErrorPolicy, mErrorMark))
+				// Handle uncompleted sequence at the end of file (including the case when the last code unit is cropped)
+				const bool isCroppedCodeUnit = result.ErrorCode == UtfEncodingErrorCode::Success && mStartDataPtr != mEndDataPtr;
+				if (result.ErrorCode == UtfEncodingErrorCode::UnexpectedEnd || isCroppedCodeUnit)
 				{
-					mStartDataPtr = mEndDataPtr = mEncodedBuffer;
-					return EncodedStreamReadResult::Success;
+					if (Detail::HandleEncodingError(outStr, mEncodingErrorPolicy, mErrorMark))
+					{
+						mStartDataPtr = mEndDataPtr = mEncodedBuffer;
+						return EncodedStreamReadResult::Success;
+					}
+					return EncodedStreamReadResult::DecodeError;
 				}
 				return result.ErrorCode == UtfEncodingErrorCode::Success ? EncodedStreamReadResult::Success : EncodedStreamReadResult::DecodeError;
 			}
